@@ -242,6 +242,9 @@ func dataFrames(sid uint32, payload []byte, es bool, pad int, maxFrame int) []by
 	if maxFrame < 1 {
 		maxFrame = 16384
 	}
+	if pad > 0 && maxFrame <= 16384 {
+		maxFrame = min(maxFrame, 16384-256) // room for the pad length byte and the padding of the last frame
+	}
 	for first := true; first || len(payload) > 0; first = false {
 		n := min(len(payload), maxFrame)
 		chunk := payload[:n]
